@@ -410,7 +410,18 @@ let () =
               let alloc_ok = not (match rest with ["try_reserve"; _; "fail"] -> true | _ -> false) in
               let matches r = match r with Some ((s', _), _) -> Z.equal (z_of_n (capacity s'.tb)) (z_of_n post.cap) && Z.equal (z_of_n s'.tb.nb) (z_of_n post.st.tb.nb) | None -> false in
               let cands = cands_upto (List.length pre.st.ents) in   (* every erasure of this step may leave a tombstone *)
-              let chosen = match List.find_opt (fun c -> matches (run c alloc_ok)) cands with Some c -> run c alloc_ok | None -> run (0, false) alloc_ok in
+              let chosen_c = (match List.find_opt (fun c -> matches (run c alloc_ok)) cands with Some c -> c | None -> (0, false)) in
+              let chosen = run chosen_c alloc_ok in
+              (* the callbacks the model lists for this step (A/PanicA.v) against the calls the instrumented types counted *)
+              (let oc = { o_tomb = n_of_int (fst chosen_c); o_reuse = snd chosen_c; o_alloc = alloc_ok } in
+               let pts = panic_points !e pre.st p oc in
+               let count k = List.length (List.filter (fun (pp : ppoint) -> pp.pk = k) pts) in
+               let seen k = (try int_of_string (List.assoc k post.calls) with _ -> -1) in
+               if post.res <> "panic" then begin
+                 chk "calls_size" (count KSize = seen "s");
+                 chk "calls_hash" (count KHash = seen "h");
+                 chk "calls_closure" (count KClosure = seen "cl")
+               end);
               (match chosen with
                | None ->
                  chk "fault" false;
